@@ -161,11 +161,12 @@ PROPS = {
             {"kind": "verus", "unit": "nlpre"},
             {"kind": "verus", "unit": "galloc"},
             {"kind": "verus", "unit": "tabsize"},
+            {"kind": "verus", "unit": "stack"},
             {"kind": "verus", "unit": "intops"},
             {"kind": "verus", "unit": "ssample"},
             {"kind": "scan", "spec": "preflight_sites"},
         ],
-        "unreached": ["dyn_size of XStack (walks Rc strong counts), Regex; that every container value is built through ManagedXValue::new (argued from the private fields of the struct); the pre-flight checks of the individual natives (V-intops decides those of the integer builtins, V-nlargest the capacity request of n_largest / n_smallest)"],
+        "unreached": ["dyn_size of Regex (memory_usage of the regex-automata crate); that every container value is built through ManagedXValue::new (argued from the private fields of the struct); the pre-flight checks of the individual natives (V-intops decides those of the integer builtins, V-nlargest the capacity request of n_largest / n_smallest)"],
         "assumptions": [],
     },
     "C11": {
